@@ -351,6 +351,34 @@ def relational(rep, tier, rng):
                             "seeds": [[int(x) for x in sd.spawn_key] for sd in rq.seeds],
                             "runs": [_which_task(ref, traj_sig(rq, pos), seeds[:ntr], rq.seeds[pos]) for pos in range(len(rq.seeds))],
                             "keys": [[int(x) for x in sd.spawn_key] for sd in seeds[:ntr]]})
+    # (6c) mixed initial ensemble with results arriving out of submission order: the seeds a result reports, handed back,
+    #      regenerate each trajectory (same member state, same record)
+    try:
+        import qutip.solver.parallel as _par2
+        Nm = 4
+        am = qutip.destroy(Nm)
+        ics_ = [(qutip.basis(Nm, 3), 0.5), (qutip.basis(Nm, 1), 0.5)]
+        sds_ = SeedSequence(4321).spawn(4)
+        for improved_ in (False, True):
+            _par2._maps["qv_perm"] = _perm_map([2, 0, 3, 1])
+            try:
+                with core.time_limit(300):
+                    o_ = {"progress_bar": "", "keep_runs_results": True, "map": "qv_perm", "improved_sampling": improved_}
+                    r1_ = qutip.MCSolver(am.dag() * am, [np.sqrt(0.8) * am], options=o_).run(ics_, np.linspace(0, 2, 5), ntraj=[2, 2], e_ops=[am.dag() * am], seeds=list(sds_))
+                    r2_ = qutip.MCSolver(am.dag() * am, [np.sqrt(0.8) * am], options=dict(o_, map="serial")).run(ics_, np.linspace(0, 2, 5), ntraj=[2, 2], e_ops=[am.dag() * am], seeds=list(r1_.seeds))
+            finally:
+                _par2._maps.pop("qv_perm", None)
+            rep.evaluations += 1
+            rep.count("mixed-ensemble-reported-seeds")
+            n1_ = {seed_key(s_): float(np.real(tr_.expect[0][0])) for s_, tr_ in zip(r1_.seeds, r1_.trajectories)}
+            n2_ = {seed_key(s_): float(np.real(tr_.expect[0][0])) for s_, tr_ in zip(r2_.seeds, r2_.trajectories)}
+            if n1_ != n2_:
+                viol.append(("mixed-ensemble-reported-seeds", f"mcsolve on a mixed initial ensemble (improved_sampling={improved_}) whose results arrive in the order [2, 0, 3, 1]: handing result.seeds back starts "
+                             f"the trajectories of {sum(1 for k_ in n1_ if n1_[k_] != n2_.get(k_))} of 4 seeds from another member state (initial <n> per seed {list(n1_.values())} in the run, {list(n2_.values())} when regenerated)"))
+    except core.CaseTimeout:
+        raise
+    except Exception as e:      # noqa
+        viol.append(("mixed-ensemble-reported-seeds-raises", f"{type(e).__name__}: {e}"[:200]))
     # (7) mixed initial ensemble: a trajectory is a function of its seed and of the member state it starts from
     try:
         H, c, psi0 = problem()
